@@ -6,6 +6,9 @@ CONSTANTS
   Entries <- MCEntries
   Random <- MCRandom
   Seedable <- MCSeedRand
+  Objs <- MCObjs
+  ObjSeed <- MCObjSeed
+  ObjEntries <- MCSeedRand
   MaxOps = 1000000
   Variant = "spec"
 INVARIANT BindFunctional
